@@ -113,6 +113,7 @@ fn accented_function_words(lang: &str) -> Vec<&'static str> {
         "pt" => vec!["não", "às", "até", "além", "atrás", "porém", "então", "próximo"],
         "ru" => vec!["её", "ещё", "путём", "Путём"],
         "xk" => vec!["が", "の", "か\u{3099}"],
+        "xr" => vec!["på", "außer", "Außer", "zu"],
         _ => vec!["the", "of", "The"],
     }
 }
@@ -223,7 +224,11 @@ impl Token {
                             cx.count(&format!("letter {} decomposed", c));
                         }
                         1 => {
-                            piece = vec![e.base];
+                            // (as its own entry of the reduction table says, when it has one)
+                            piece = match exp.iter().find(|x| x.0 == c) {
+                                Some(x) => cv(x.1),
+                                None => vec![e.base],
+                            };
                             kinds.push("folded");
                             cx.count(&format!("letter {} folded", c));
                         }
